@@ -99,3 +99,26 @@ package route
 //@ contract route.(*Router).handleOTLPFailureResponse props C23,C24 havocheap
 //@   requires r != nil
 //@   modifies statusWrites(w), lastStatus(w), bodyWrites(w), hdr(w.Header())
+
+// ---- C22: event timestamps are preserved exactly.
+// An integer Unix epoch header: the first ten digits are seconds, the remaining
+// 0, 3, 6 or 9 digits a decimal fraction of a second.
+//@ spec pow10(k int) int := ite(k <= 0, 1, ite(k == 1, 10, ite(k == 2, 100, ite(k == 3, 1000, ite(k == 4, 10000, ite(k == 5, 100000, ite(k == 6, 1000000, ite(k == 7, 10000000, ite(k == 8, 100000000, 1000000000)))))))))
+//@ contract route.getEventTime props C22 function
+//@   domain[all-digits-no-leading-zero] atoi(etHeader) >= 0 && len(etHeader) >= 10 && len(etHeader) <= 19 && etHeader[0] != '0'
+//@   domain[fits-int64] atoi(etHeader) <= 9223372036854775807
+// consequences of "all digits" that the string solvers do not derive by themselves:
+// the seconds part and the fraction part of a digit string are digit strings
+//@   domain[digit-parts] atoi(etHeader[:10]) >= 0 && (len(etHeader) == 10 || atoi(etHeader[10:]) >= 0)
+//@   let secs = atoi(etHeader[:10])
+//@   let fracDigits = len(etHeader) - 10
+//@   let fracVal = ite(fracDigits == 0, 0, atoi(etHeader[10:]))
+//@   ensures[exact-instant] result == time.Unix(toInt(secs), 0).Add(time.Duration(toInt(fracVal) * pow10(9 - fracDigits)))
+//@   loop 1 invariant len(frac) <= i && i <= 9 && toInt(nsec) == atoi(frac) * pow10(i - len(frac)) && 0 <= atoi(frac) && atoi(frac) < pow10(len(frac))
+//@   modifies nothing
+
+//@ contract route.(*batchedEvent).getEventTime props C22
+//@   requires b != nil
+//@   ensures[msgpack-timestamp-is-the-instant] b.MsgPackTimestamp != nil ==> result == *b.MsgPackTimestamp
+//@   ensures[otherwise-the-time-field] b.MsgPackTimestamp == nil ==> result == getEventTime(b.Timestamp)
+//@   modifies nothing
